@@ -9,6 +9,12 @@ by n) and compared with the plain-list state *after* the call: evaluations kept,
 cell, and the three parameter tables (exactly the referenced ids, rows unchanged).  raw_learners is recomputed
 from the interaction rows in Fraction arithmetic; moving_average is compared with its textbook definitions.
 
+Chains also hold where() on the columns of the interactions table (index, reward, a second y column; by value, list, range,
+set operator or predicate, alone, two at once, next to an id selection, or as filter_int(row predicate)): such a step keeps
+some rows of some evaluations and none of others, so the evaluations that survive are not a union of whole environments /
+learners / evaluators.  After it the invariants are asserted (rows kept are rows of the input in their order, cell for cell;
+no dangling id; no parameter row left without an interaction when the input had none), and the chain goes on from there.
+
 Column NAMES are part of the input space: in ~40% of the cases parameter columns carry names that contain / start with /
 end with / are a prefix of / differ only by case from the names coba itself tests for ('index', 'reward', the three ids,
 'full_name', 'family', the 'x' column of raw_learners, the second y column), and l / p / x name these columns.  The reference
@@ -22,7 +28,8 @@ LEVEL = "exploration"
 RULE  = ("seeded Results (1-6 environments, 1-5 learners, 1-3 evaluators; missing-triple pattern x ragged-length "
          "pattern x parameter-value kinds incl. duplicates, unsortable mixes, tuples, None/Missing, frozensets) built "
          "through Result(rows), Result(Tables), TransactionResult or a real Experiment, then a seeded chain of "
-         "where / where_best / where_fin(n,l,p) / raw_learners(x,y,l,p,span) on the real object; one case = one "
+         "where (ids, parameter columns, or interaction columns index/reward/extra by value, list, range, set operator, predicate) "
+         "/ where_best / where_fin(n,l,p) / raw_learners(x,y,l,p,span) on the real object; one case = one "
          "oracle evaluation of where_fin, raw_learners or moving_average; distinct & non-trivial = distinct (operation, "
          "sizes, missing pattern, length pattern, l/p/n/x/span class, value kinds, chain prefix, (role, special name, relation) of "
          "parameter columns named like 'index'/'reward'/ids/'full_name' (shuffle_index, INDEX, learner, reward2, ...)) with >= 2 learners and "
@@ -32,6 +39,9 @@ PLAN  = {"quick":    {"shards": 16, "cases": 16000,  "timeout": 600,  "budget_s"
 REQUIRED = ["oracle.where_fin", "oracle.where_fin.exact", "oracle.where_fin.group-dropped", "oracle.where_fin.truncated",
             "oracle.where_fin.short-dropped", "oracle.where_fin.dup-level-group", "oracle.where_fin.chained",
             "oracle.integrity", "oracle.integrity.after-where", "oracle.integrity.after-where_best",
+            "oracle.integrity.after-where.interaction-column", "oracle.integrity.after-where.interaction-column.evaluation-removed",
+            "oracle.integrity.after-where.interaction-column.evaluation-removed.input-consistent",
+            "oracle.integrity.after-where.interaction-column.id-removed.kept-evaluations-equal-table-rows",
             "oracle.raw_learners", "oracle.raw_learners.index", "oracle.raw_learners.param-x", "oracle.raw_learners.cells",
             "oracle.where_fin.near-special-name", "oracle.raw_learners.near-special-name-x", "oracle.raw_learners.near-special-name-x.ragged",
             "oracle.raw_learners.near-index-name-x.ragged", "oracle.raw_learners.near-special-name-lp",
@@ -40,8 +50,12 @@ REQUIRED = ["oracle.where_fin", "oracle.where_fin.exact", "oracle.where_fin.grou
 ASSUMPTIONS = [
     "l and p are always given explicitly to where_fin / raw_learners (the statement's 'by default' pairing is not asserted); "
     "where_fin(n) alone is only checked for lengths, unchanged values and preserved referential integrity",
-    "ids are ints; an evaluation's index column is 1..N (what experiments write); chains only use where() on ids / parameter "
-    "columns with =, !=, in and on index with <= (no holes inside an evaluation)",
+    "ids are ints; an evaluation's index column is 1..N at construction (what experiments write); chains use where() on ids / "
+    "parameter columns with =, !=, in, on index with <=, and on interaction columns (index, reward, extra) with a value, a list, "
+    "=, !=, <, <=, >, >=, in, !in or a predicate; the latter can leave evaluations whose index column is no longer 1..N: from "
+    "then on where_fin with n given is only checked for the invariants (surviving rows are input rows, cell for cell; no dangling "
+    "id) because the statement does not define the 'length' of such an evaluation, raw_learners(x='index') is not evaluated, "
+    "and where_fin(None,l,p) / raw_learners(x=parameter) are checked as usual",
     "when n=k and a group that is complete on the input holds an evaluation shorter than k, the statement does not say whether "
     "the rest of that group survives: only the weak reading is asserted there (survivors are input evaluations of length >= k "
     "cut to k, and every surviving p-group holds exactly one evaluation for every level that survives)",
@@ -144,10 +158,45 @@ def gen_n(rng, lengths):
     if r < .55 or not lengths: return "min"
     return max(1, rng.choice(lengths) + rng.choice([-1, 0, 0, 0, 1]))
 
-def gen_ops(rng, cols, eids, lids, vids, lengths, pools):
+def _int_arg(rng, c, lengths, info):
+    """the argument of where(<interaction column>=...): a value, a list, a range, a set operator or a predicate ({'pred': [op, value]})"""
+    if c == "index":
+        k = max(1, rng.choice(lengths or [2]) + rng.choice([-1, 0, 0, 1]))
+        some = list(range(k, k + rng.randint(1, 3)))
+        return rng.choice([k, some, {"=": k}, {">=": k}, {">=": k}, {">": k}, {"<": k}, {"in": some}, {"!in": list(range(1, k))}, {"!=": k},
+                           {"pred": [">=", k]}, {"pred": ["in", some]}])
+    kind, seen = info
+    if kind == "binary":
+        v = rng.choice([0, 1])
+        return rng.choice([v, [v], {"=": v}, {"!=": v}, {">=": 1}, {">": 0}, {"<": 1}, {"<=": 0}, {"in": [v]}, {"pred": ["==", v]}, {"pred": [">=", 1]}])
+    if seen:
+        few = rng.sample(seen, min(len(seen), rng.randint(1, 4)))
+        t = rng.choice(seen)
+    else:
+        few, t = [0.5], rng.choice([.2, .5, .8])
+    return rng.choice([few[0], few, {"in": few}, {"!in": few}, {">=": t}, {">": t}, {"<=": t}, {"<": t}, {">=": t}, {"<=": t},
+                       {"pred": [">=", t]}, {"pred": ["<=", t]}, {"pred": ["in", few]}])
+
+def gen_int_where(rng, lengths, ycols, lids):
+    """where on a column of the interactions table (index, reward, ...): keeps some rows of some evaluations and none of others"""
+    c = rng.choice(["index", "index"] + sorted(ycols) * 2)
+    kw = {c: _int_arg(rng, c, lengths, ycols.get(c))}
+    op = {"op": "where", "kw": kw}
+    r = rng.random()
+    if r < .10:                                      # a second interaction column in the same call
+        c2 = rng.choice([k for k in ["index"] + sorted(ycols) if k != c])
+        kw[c2] = _int_arg(rng, c2, lengths, ycols.get(c2))
+    elif r < .18:                                    # together with a selection of learners
+        kw["learner_id"] = rng.sample(lids, rng.randint(1, len(lids)))
+    elif r < .40 and isinstance(kw[c], dict) and "pred" in kw[c]:
+        op["via"] = "filter_int"                     # the predicate is given the whole interaction row
+    return op
+
+def gen_ops(rng, cols, eids, lids, vids, lengths, pools, ycols=None):
     ops = []
     nv = len(vids)
     def where_op():
+        if ycols and rng.random() < .25: return gen_int_where(rng, lengths, ycols, lids)
         r = rng.random()
         if   r < .25: return {"op": "where", "kw": {"environment_id": rng.sample(eids, rng.randint(1, len(eids)))}}
         elif r < .45: return {"op": "where", "kw": {"learner_id": {"!=": rng.choice(lids)}}}
@@ -256,10 +305,14 @@ def gen_case(rng):
     for t, kinds in ((envs, ekinds), (lrns, lkinds), (vals, vkinds)):
         for j, c in enumerate(t["cols"][1:], 1):
             if kinds[c] in ("int", "str", "float", "unique"): pools[c] = sorted({r[j] for r in t["rows"]}, key=repr)
+    def seen(j):
+        vs = sorted({x for ev in evals for x in ev[j]})
+        return vs if len(vs) <= 12 else rng.sample(vs, 12)
+    ycols = {"reward": [rk, seen(3)], "extra": ["unit", seen(4)]}
     spec = {"build": build, "envs": envs, "lrns": lrns, "vals": vals, "evals": evals, "orphans": orphans, "shuffle": order,
             "shuffle_seed": rng.randrange(1 << 30),
             "meta": {"pattern": pattern, "lpat": lpat, "ekinds": ekinds, "lkinds": lkinds, "vkinds": vkinds},
-            "ops": gen_ops(rng, cols, eids, lids, vids, lengths, pools),
+            "ops": gen_ops(rng, cols, eids, lids, vids, lengths, pools, ycols),
             "ma": [gen_ma(rng) for _ in range(2)]}
     if rng.random() < .4: spec = gen_names(rng, spec)
     return spec
@@ -345,7 +398,8 @@ def gen_experiment_case(rng):
     learners = [["random", rng.choice([1, 2])] for _ in range(rng.randint(1, 2))] + [["limit", rng.choice([2, 4, 6, 100])] for _ in range(rng.randint(1, 2))]
     cols = {"env": EXP_ENV_COLS, "lrn": EXP_LRN_COLS, "val": EXP_VAL_COLS}
     n_e = len(takes)
-    ops = gen_ops(rng, cols, list(range(n_e)), list(range(len(learners))), [0], sorted(set(takes)), {"seed": seeds, "take": sorted(set(takes))})
+    ops = gen_ops(rng, cols, list(range(n_e)), list(range(len(learners))), [0], sorted(set(takes)), {"seed": seeds, "take": sorted(set(takes))},
+                  {"reward": ["unit", []]})
     for op in ops:                                   # real results carry no 'extra' column
         if op.get("y") == "extra": op["y"] = "reward"
     return {"build": "experiment", "seeds": seeds, "nshuf": nshuf, "takes": takes, "learners": learners,
@@ -549,6 +603,10 @@ def _close(a, b, scale=1.0):
     return abs(float(a) - float(b)) <= TOL * max(1.0, scale)
 
 # ------------------------------------------------------------------------------------------ invariants on every produced Result
+def index_gaps(state):
+    """some evaluation whose index column is not 1..N (only a where on an interaction column produces that)"""
+    return any([r["index"] for r in rows] != list(range(1, len(rows) + 1)) for rows in state.evals.values())
+
 def integrity(state):
     """-> (dangling ids, unreferenced parameter rows)"""
     dangling, unref = [], []
@@ -559,15 +617,22 @@ def integrity(state):
         if have - used: unref.append(name)
     return dangling, unref
 
-def subset_and_values(before, after):
-    """every evaluation of `after` is an evaluation of `before` and holds a prefix of its rows, cell for cell;
-    every parameter row of `after` equals the row of `before`.  -> failure mode or None"""
+def subset_and_values(before, after, prefix=True):
+    """every evaluation of `after` is an evaluation of `before` and holds a prefix of its rows (prefix=False: some of its rows, in
+    their order), cell for cell; every parameter row of `after` equals the row of `before`.  -> failure mode or None"""
     for ev, rows in after.evals.items():
         src = before.evals.get(ev)
         if src is None: return "new-evaluation"
         if len(rows) > len(src): return "rows-added"
-        for a, b in zip(rows, src):
-            if not _row_eq(a, b): return "value-changed"
+        if prefix:
+            for a, b in zip(rows, src):
+                if not _row_eq(a, b): return "value-changed"
+        else:
+            j = 0
+            for a in rows:
+                while j < len(src) and not _row_eq(a, src[j]): j += 1
+                if j == len(src): return "value-changed"
+                j += 1
     for name in ("env", "lrn", "val"):
         for i, r in after.par[name].items():
             src = before.par[name].get(i)
@@ -577,9 +642,29 @@ def subset_and_values(before, after):
     return None
 
 # ------------------------------------------------------------------------------------------ op appliers
+_PREDS = {">=": lambda v: (lambda c: c >= v), "<=": lambda v: (lambda c: c <= v), "==": lambda v: (lambda c: c == v),
+          "in": lambda v: (lambda c, s=tuple(v): c in s)}
+def _where_arg(a):
+    if isinstance(a, dict):
+        if "pred" in a: return _PREDS[a["pred"][0]](a["pred"][1])
+        return dict(a)
+    return a
+
+def int_where_cols(state, op):
+    """the columns of the interactions table a where names (routed to filter_int)"""
+    if op["op"] != "where": return []
+    par = set(state.cols["env"]) | set(state.cols["lrn"]) | set(state.cols["val"])
+    return [c for c in op["kw"] if c not in par and c in state.icols]
+
 def apply_op(R, op):
     k = op["op"]
-    if k == "where":      return R.where(**{c: (dict(a) if isinstance(a, dict) else a) for c, a in op["kw"].items()})
+    if k == "where":
+        kw = {c: _where_arg(a) for c, a in op["kw"].items()}
+        if op.get("via") == "filter_int":            # the same selection written as a predicate over whole interaction rows
+            (c, f), = kw.items()
+            j = list(R.interactions.columns).index(c)
+            return R.filter_int(lambda row: f(row[j]))
+        return R.where(**kw)
     if k == "where_fin":  return (R.filter_fin if op.get("alias") else R.where_fin)(op["n"], op["l"], op["p"])
     if k == "where_best": return R.where_best(op["l"], op["p"], n=op["n"])
     raise ValueError(k)
@@ -657,11 +742,15 @@ def _check(spec, ctx=None):
         kind = op["op"]
         chained = bool(prefix)
         known = set(state.cols["env"]) | set(state.cols["lrn"]) | set(state.cols["val"]) | {"full_name", "index"}
-        named = [c for k in ("l", "p", "x") if op.get(k) is not None for c in ([op[k]] if isinstance(op[k], str) else op[k])] + list(op.get("kw", {}))
-        if any(c not in known for c in named) or ("y" in op and op["y"] not in state.icols):
+        named = [c for k in ("l", "p", "x") if op.get(k) is not None for c in ([op[k]] if isinstance(op[k], str) else op[k])]
+        if any(c not in known for c in named) or any(c not in known and c not in state.icols for c in op.get("kw", {})) or ("y" in op and op["y"] not in state.icols):
             note("skipped.column-absent"); continue     # e.g. a parameter no loaded row carries
+        gaps = index_gaps(state)                        # an earlier where on an interaction column left indexes other than 1..N
+        icols = int_where_cols(state, op)
         # ------------------------------------------------------------------ raw_learners (an observation: R stays)
         if kind == "raw_learners":
+            if gaps and op["x"] == "index":             # 'length' and the x axis are not defined by the statement there
+                note("skipped.raw_learners-index-not-1..N"); continue
             v = check_raw(R, state, op, prefix, meta, n_e, n_l, ctx, note)
             opv.extend((i_op, a, b) for a, b in v)
             continue
@@ -677,24 +766,48 @@ def _check(spec, ctx=None):
             break
         st2 = extract(R2)
         note("oracle.integrity"); note(f"oracle.integrity.after-{kind}")
-        after = "/after=" + "+".join(prefix) if chained and kind != "where_fin" else ""
-        bad = subset_and_values(state, st2)
+        klabel = kind + ("/on=interaction-column" if icols else "")
+        if icols:
+            # rows are selected inside the evaluations: some evaluations keep a part of their rows, others none at all
+            note("oracle.integrity.after-where.interaction-column")
+            gone = [ev for ev in state.evals if ev not in st2.evals]
+            if gone and st2.evals:
+                note("oracle.integrity.after-where.interaction-column.evaluation-removed")
+                if consistent:
+                    note("oracle.integrity.after-where.interaction-column.evaluation-removed.input-consistent")
+                    for k, name in enumerate(("env", "lrn", "val")):
+                        # as many evaluations left as the table has rows, although one of its ids is gone with its evaluations
+                        if len(st2.evals) == len(state.par[name]) and len({ev[k] for ev in st2.evals}) < len(state.par[name]):
+                            note("oracle.integrity.after-where.interaction-column.id-removed.kept-evaluations-equal-table-rows")
+                            break
+        cut = all(c == "index" and isinstance(op["kw"][c], dict) and set(op["kw"][c]) <= {"<=", "<"} for c in icols)   # index <= k keeps a prefix
+        bad = subset_and_values(state, st2, prefix=cut)
         if bad:
-            opv.append((i_op, f"{kind}/invariant/mode={bad}", f"{kind} {op}: {bad}")); break
+            opv.append((i_op, f"{klabel}/invariant/mode={bad}", f"{kind} {op}: {bad}")); break
         dangling2, unref2 = integrity(st2)
         if dangling2:
-            opv.append((i_op, f"{kind}/integrity/mode=dangling-{'+'.join(dangling2)}-id", f"after {kind} {op} interaction rows reference ids absent from {dangling2}")); break
+            opv.append((i_op, f"{klabel}/integrity/mode=dangling-{'+'.join(dangling2)}-id", f"after {kind} {op} interaction rows reference ids absent from {dangling2}")); break
         explicit = kind == "where_fin" and op["l"] is not None
+        lengths_unspecified = kind == "where_fin" and op["n"] is not None and gaps
         if unref2 and (consistent or explicit):
-            opv.append((i_op, f"{kind}/integrity/mode=unreferenced-{'+'.join(unref2)}-row" + ("" if explicit else "/input-consistent"),
+            opv.append((i_op, f"{klabel}/integrity/mode=unreferenced-{'+'.join(unref2)}-row" + ("" if explicit else "/input-consistent") + ("/index-not-1..N" if lengths_unspecified else ""),
                          f"after {kind} {op} the {unref2} table holds rows no interaction refers to")); break
+        if lengths_unspecified:
+            # n after a where that left indexes other than 1..N: the statement does not say what the 'length' of such an evaluation is;
+            # the integrity of the four tables (above) is asserted all the same
+            note("oracle.where_fin.index-not-1..N-lengths-unasserted")
+            R, state = R2, st2
+            consistent = not unref2
+            prefix.append(kind)
+            n_e = len({ev[0] for ev in state.evals}); n_l = len({ev[1] for ev in state.evals})
+            continue
         if kind == "where_fin":
             v = check_fin(state, st2, op, prefix, meta, n_e, n_l, ctx, note)
             opv.extend((i_op, a, b) for a, b in v)
             if v: break
         R, state = R2, st2
         consistent = not unref2
-        prefix.append(kind)
+        prefix.append("where-int" if icols else kind)
         n_e = len({ev[0] for ev in state.evals}); n_l = len({ev[1] for ev in state.evals})
     return viol, opv
 
